@@ -6,9 +6,9 @@ package main
 // characters and recognises exactly the intended first byte.
 
 import (
-	"sort"
 	"fmt"
 	"go/token"
+	"sort"
 	"strings"
 
 	"golang.org/x/tools/go/ssa"
